@@ -68,4 +68,14 @@ SPECS = {
                 'one read/cut op returned a tree; distinct = event-log digest',
         'assumptions': _EDIT_ASSUME + ['structural equality ignores expression contexts and whitespace after newlines inside string constants (documented docstring re-indentation)'],
     },
+    'C08': {
+        'engine': 'editsim', 'mod': 'sim.engines', 'quick': 12000, 'thorough': 200000, 'level': 'exploration',
+        'rule': 'one evaluation = one seeded run: program + history of 1-6 composite ops (cut node/slice ... put back at the '
+                'same place with cache-warming queries in between, repeated up to 4x; replace(node, own copy | own pure AST | '
+                'own source | own_src()); own_src() re-parsed; put_docstr->get_docstr and put_line_comment->get_line_comment '
+                'over texts with quotes, backslashes, control and non-ASCII characters) optionally interleaved with ordinary '
+                'edits; structure (dump without positions) before == after; accessors read back exactly; non-trivial = at '
+                'least one round trip completed; distinct = event-log digest',
+        'assumptions': _EDIT_ASSUME + ['refusals documented as not implemented are not violations', 'comment round trip asserted only for single-line texts without leading/trailing whitespace'],
+    },
 }
